@@ -45,8 +45,8 @@ Definition check_dec (c : ctor_case) : bool :=
       match run_ctor (ext_of (cc_ext c)) (cc_op c) (cc_ctor c) init_cdb G0 (cc_pos c) (cc_kw c) with
       | (G', Ok cm) =>
           match cdb cm with
-          | Some b => result_eqb (list_eqb kv_eqb) (unmarshall_cdb G' b) (Ok d)
-                      && result_eqb bytes_eqb (marshall_cdb G' d) re
+          | Some b => result_eqb (list_eqb kv_eqb) (unmarshall_cdb (cc_ctor c) b) (Ok d)
+                      && result_eqb bytes_eqb (marshall_cdb init_cdb (cc_ctor c) d) re
           | None => false
           end
       | _ => false
